@@ -78,8 +78,15 @@ theorem disc_forIn_range {β} (r : Std.Legacy.Range) (f : Nat → β → DecM (F
   rw [Std.Legacy.Range.forIn_eq_forIn_range']
   exact disc_forIn_list f hf _ init
 
+attribute [local irreducible] DecM.require DecM.lift DecM.alloc DecM.tag DecM.remaining DecM.version DecM.rdU8
+  DecM.rdU16 DecM.rdU32 DecM.rdI8 DecM.rdI32 DecM.varint DecM.bytes countV peekRest liftR DecM.replicateM' DecM.mapM'
+  repeatM withBuffer DecM.fail DecM.failWith DecM.declare DecM.andThen DecM.ret
+
 /-- one step of the structural walk, with the primitives of the Edgebreaker decoder -/
 macro "ebdisc_step" : tactic => `(tactic| first
+  | apply disc_bind
+  | apply disc_ite
+  | intro _
   | exact disc_tag _ | exact disc_peekRest | exact disc_liftR _ | exact disc_countV _
   | exact disc_getState | exact disc_setRest _
   | exact disc_pure _ | exact disc_fail | exact disc_failWith _ (by simp) | exact disc_require _
@@ -94,9 +101,6 @@ macro "ebdisc_step" : tactic => `(tactic| first
   | apply disc_forIn_list
   | apply disc_replicateM'
   | apply disc_mapM'
-  | apply disc_bind
-  | apply disc_ite
-  | intro _
   | split)
 
 theorem disc_splits_raw : ∀ (k : Nat) (acc : List TopoSplit), Disc (decodeTopologySplits.raw k acc)
